@@ -43,6 +43,14 @@ def followup(stage, lines, model, checked, release, tier, rng):
                     raw = K.sign_raw(s, K.frame(msg, ctx, ph), sk)
                     _st[s]["sigs"].append((msg, ctx, ph, a, raw))
                     L.append(a); L.append(raw)
+            # |ctx| = 256 + k: `len as u8` wraps to k, and 0 || k || ctx || M is also the framing of (ctx[:k], ctx[k:] || M):
+            # a signature made for the latter must NOT verify for (ctx, M)
+            _st[s]["wrap"] = []
+            for n in (256, 257, 300):
+                c = R(n); k = n - 256; payload = R(10)
+                a = K.api_sign(s, sk, c[k:] + payload, c[:k] if k else None)
+                _st[s]["wrap"].append((a, c, payload))
+                L.append(a)
             for n in (256, 257, 1000):
                 c = R(n)
                 L.append(K.api_sign(s, sk, b"m", c))
@@ -69,6 +77,10 @@ def followup(stage, lines, model, checked, release, tier, rng):
                     v = K.api_verify(s, st["pk"], b"bc", sig, b"a"); st["ver"].append((v, False)); L.append(v)
                 if ctx == b"a" and msg == b"bc" and ph is None:
                     v = K.api_verify(s, st["pk"], b"c", sig, b"ab"); st["ver"].append((v, False)); L.append(v)
+            for (a, c, payload) in st.get("wrap", []):
+                sg = K.sig_of(checked[idx[a]])
+                if sg:
+                    v = K.api_verify(s, st["pk"], payload, sg, c); st["ver"].append((v, False)); L.append(v)
             sig0 = None
             for (msg, ctx, ph, a, raw) in st["sigs"]:
                 sig0 = K.sig_of(checked[idx[a]])
